@@ -1458,7 +1458,9 @@ class NormalDerivative(DiffOperator):
             if coeffs:
                 a = Mul(*coeffs)
 
-            b = S.One
+            # the normal derivative is a derivation: it vanishes on constants
+            # and obeys the Leibniz rule on products
+            b = S.Zero
             if vectors:
                 try:
                     if len(vectors) == 1:
@@ -1531,9 +1533,10 @@ class Jump(BasicOperator):
             if coeffs:
                 a = Mul(*coeffs)
 
-            # the jump of a product of functions is neither a derivation nor multiplicative
+            # the jump of a constant vanishes; the jump of a product of functions is neither a
+            # derivation nor multiplicative
             # (jump(f*g) = minus(f)*minus(g) - plus(f)*plus(g)): it is kept as it is
-            b = S.One
+            b = S.Zero
             if vectors:
                 try:
                     if len(vectors) == 1:
